@@ -34,7 +34,23 @@ def gen_cases(rng, tier):
         keys = fqeio.sector_keys(norb, mode, nn, sz)
         ket = fqeio.random_state(rng, norb, keys, density=0.8)
         bra = fqeio.random_state(rng, norb, keys, density=0.8) if rng.random() < 0.5 else None
-        cases.append({'kind': 'ops', 'norb': norb, 'mode': mode, 'n': nn, 'sz': sz, 'ket': ket, 'bra': bra})
+        # provenance of the ket: built by the library's constructors with the right symmetry flags ('direct'), by the
+        # bare constructor without `broken=` ('bare'), returned by a Cirq round trip ('cirq') or by apply() of a sparse
+        # Hamiltonian ('sparse': a number- and spin-conserving hop + h.c.) - the last three carry default flags
+        # whatever sectors they hold (finding F-C11-flags-dropped); the operators must not trust the flags
+        # (a number-conserving sparse Hamiltonian is refused on a number-broken wavefunction: no 'sparse' there)
+        prov = rng.choice({'ns': ['direct', 'sparse'], 'sb': ['direct', 'direct', 'bare', 'cirq', 'sparse'],
+                           'nb': ['direct', 'direct', 'bare', 'cirq']}[mode])
+        case = {'kind': 'ops', 'norb': norb, 'mode': mode, 'n': nn, 'sz': sz, 'ket': ket, 'bra': bra, 'prov': prov}
+        if prov == 'sparse':
+            spin = rng.randint(0, 1)
+            p_, q_ = rng.randrange(norb), rng.randrange(norb)
+            re, im = rng.randint(1, 2), (rng.randint(-2, 2) if p_ != q_ else 0)
+            ents = [[[[2 * p_ + spin, 1], [2 * q_ + spin, 0]], re, im]]
+            if p_ != q_:
+                ents.append([[[2 * q_ + spin, 1], [2 * p_ + spin, 0]], re, -im])
+            case['hop'] = {'cls': 'sparse', 'rank': 0, 'entries': ents, 'e0': [0, 0], 'real': False}
+        cases.append(case)
     # (c) conservation under symmetric dynamics
     for _ in range(10 if tier == 'quick' else 60):
         norb = rng.randint(2, 3)
@@ -94,6 +110,17 @@ def run_impl(case, mode):
         ket = fqeio.make_wfn(norb, case['mode'], case['n'], case['sz'], case['ket'])
         bra = fqeio.make_wfn(norb, case['mode'], case['n'], case['sz'], case['bra']) if case['bra'] else None
         res = {}
+        prov = case.get('prov', 'direct')
+        if prov == 'bare':
+            keys = fqeio.sector_keys(norb, case['mode'], case['n'], case['sz'])
+            ket = fqe.Wavefunction([[k[0], k[1], norb] for k in keys])
+            fqeio.set_state(ket, case['ket'])
+        elif prov == 'cirq':
+            ket = fqe.from_cirq(fqe.to_cirq(ket), 1e-12)
+        elif prov == 'sparse':
+            from props import c01
+            ket = ket.apply(c01.build_ham(case['hop'], norb))
+        res['ket_after_prov'] = fqeio.read_state(ket)
         before = fqeio.read_state(ket)
         for name, op in (('N', fqe.get_number_operator()), ('Sz', fqe.get_sz_operator()),
                          ('S2', fqe.get_s2_operator()), ('T', fqe.get_time_reversal_operator())):
@@ -153,8 +180,16 @@ def expected(model, case):
     if case['kind'] == 'ops':
         norb = case['norb']
         ket = case['ket']
-        bra = case['bra'] if case['bra'] else case['ket']
-        res = {}
+        if case.get('prov') == 'sparse':
+            from props import c01
+            e = c01.expected(model, {'norb': norb, 'mode': case['mode'], 'n': case['n'], 'sz': case['sz'],
+                                     'vec': ket, 'ham': case['hop']})
+            ket = [[int(k.split(',')[0]), int(k.split(',')[1]), v[0], v[1]] for k, v in sorted(e['out'].items())]
+        bra = case['bra'] if case['bra'] else ket
+        res = {'ket': ket}
+        if not ket:
+            res.update({'N': [0, 0], 'Sz': [0, 0], 'S2': [0, 0], 'T': [0, 0], 'T_closed': False, 'empty': True})
+            return res
         for name, tag in (('N', 'NUM'), ('Sz', 'SZ2'), ('S2', 'S2x4')):
             t = model.q('MATELH', norb, 1, tag, 1, 0, *fqeio.vec_tokens(bra), *fqeio.vec_tokens(ket))
             res[name] = [int(t[0]), int(t[1])]
@@ -164,6 +199,9 @@ def expected(model, case):
         t = model.q('INNER', norb, *fqeio.vec_tokens(bra), *fqeio.vec_tokens(tk))
         res['T'] = [int(t[0]), int(t[1])]
         keys = set(fqeio.sector_keys(norb, case['mode'], case['n'], case['sz']))
+        if case.get('prov') == 'cirq':
+            # the import creates only the sectors that carry amplitude
+            keys = set((bin(a).count('1') + bin(b).count('1'), bin(a).count('1') - bin(b).count('1')) for a, b, _, _ in ket)
         res['T_closed'] = all((n, -s) in keys for (n, s) in keys)
         return res
     return {}
@@ -198,6 +236,14 @@ def compare(case, got, exp, mode):
     if case['kind'] == 'ops':
         if not got['unchanged']:
             bad.append('expectationValue modified the ket')
+        gk = {(a, b): (re, im) for a, b, re, im in got['ket_after_prov']}
+        ek = {(a, b): (re, im) for a, b, re, im in exp['ket']}
+        if any(abs(gk.get(k, (0, 0))[0] - ek.get(k, (0, 0))[0]) + abs(gk.get(k, (0, 0))[1] - ek.get(k, (0, 0))[1]) > 1e-9
+               for k in set(gk) | set(ek)):
+            bad.append('the ket prepared through %r does not have the expected amplitudes' % case.get('prov'))
+            return bad
+        if exp.get('empty'):
+            return bad
         for name in ('N', 'Sz', 'S2', 'T'):
             g = got[name]
             if name == 'T' and not exp['T_closed']:
@@ -238,13 +284,13 @@ def nontrivial(case, exp):
     if case['kind'] == 'ctor':
         return case['norb'] >= 1
     if case['kind'] == 'ops':
-        return exp['S2'] != [0, 0] or exp['T'] != [0, 0]
+        return not exp.get('empty') and (exp['S2'] != [0, 0] or exp['T'] != [0, 0])
     return True
 
 
 def case_class(case):
     if case['kind'] == 'ops':
-        return 'ops/%s/norb%d/%s' % (case['mode'], case['norb'], 'transition' if case['bra'] else 'expectation')
+        return 'ops/%s/norb%d/%s/%s' % (case['mode'], case['norb'], 'transition' if case['bra'] else 'expectation', case.get('prov', 'direct'))
     return '%s/norb%d' % (case['kind'], case['norb'])
 
 
